@@ -182,3 +182,14 @@ PROPS = {
 
 HOOK_COMMITS = ["6bd6519"]
 NOT_APPLICABLE = {}
+
+# Coherence theorems (oracle accepts the model's own output on the whole stated domain): statement files outside Props/Cxx.v,
+# counted among the obligations of the property whose oracle they speak about: property -> [(file under Props/, name regex)]
+COHERENCE = {
+    "C17": [("Coherence", r"^coh_ck")],
+    "C07": [("Coherence", r"^coh_pkglen(?!18)")],
+    "C08": [("Coherence", r"^coh_int")],
+    "C09": [("Coherence", r"^coh_path(?!18)")],
+    "C16": [("Coherence", r"^coh_(eisa|uuid)")],
+    "C18": [("Coherence", r"^coh_(pkglen18|path18)")],
+}
